@@ -9,20 +9,37 @@ import BS.SpecWorld
 
 open BS
 
-partial def loop (h : IO.FS.Stream) (out : IO.FS.Stream) (mw : Impl.World) (sw : SpecW.SpecWorld) : IO Unit := do
+/-- how the model's directory changed over one op (same classification as bsrun's audit mode) -/
+def fsChange (a b : Impl.Dir) : String :=
+  if a == b then "same" else
+  let roles : List Impl.Role := [.data, .index, .part] ++
+    (a.caches ++ b.caches).flatMap fun (B, _) => [.cdata B, .cindex B, .cpart B]
+  let ok := roles.all fun r =>
+    match a.getRole r, b.getRole r with
+    | some old, some new => old.isPrefixOf new
+    | some _, none => false
+    | none, _ => true
+  if ok then
+    -- an unchanged listing that only differs in bookkeeping is `same`
+    if roles.all (fun r => a.getRole r == b.getRole r) then "same" else "append"
+  else "other"
+
+partial def loop (audit : Bool) (h : IO.FS.Stream) (out : IO.FS.Stream) (mw : Impl.World) (sw : SpecW.SpecWorld) : IO Unit := do
   let line ← h.getLine
   if line.isEmpty then return ()
   let t := line.trimAscii.toString
   if t.isEmpty || t.startsWith "#" then
-    loop h out mw sw
+    loop audit h out mw sw
   else
     let op := Script.parseOp t
     let (mw', m) := Impl.step mw op
     let (sw', s) := SpecW.step sw op
+    let m := if audit then m ++ " #fs=" ++ fsChange mw.dir mw'.dir else m
     out.putStrLn ("M " ++ m)
     out.putStrLn ("S " ++ s)
     out.flush
-    loop h out mw' sw'
+    loop audit h out mw' sw'
 
 def main : IO Unit := do
-  loop (← IO.getStdin) (← IO.getStdout) {} {}
+  let audit := (← IO.getEnv "BSRUN_AUDIT").isSome
+  loop audit (← IO.getStdin) (← IO.getStdout) {} {}
